@@ -69,6 +69,9 @@ Section SortBy.
   Definition sort_by (l : list row) : list row := fold_right insert_by [] l.
 End SortBy.
 
+(** rows that tie with [x] under the comparator (for the statement of stability) *)
+Definition ties (cmp : row -> row -> Z) (x r : row) : bool := cmp x r =? 0.
+
 (** the operator: state [None] = input not yet sorted, [Some rows] = sorted rows still to emit *)
 Definition sort_next (keys : list skey) (st : option (list row)) (cs : list chunk)
   : option (chunk * option (list row) * list chunk) :=
@@ -107,3 +110,10 @@ Definition col_one_class (c : nat) (rows : list row) : bool :=
   end.
 Definition keys_one_class (keys : list skey) (rows : list row) : bool :=
   forallb (fun k => col_one_class (sk_col k) rows) keys.
+
+(** key columns that hold only Int64 values, NULLs and missing values: there the comparator IS a
+    total preorder (theorem [sort_spec_int_keys], no hypothesis left) *)
+Definition int_key_col (c : nat) (r : row) : bool :=
+  match nth_error r c with None | Some VNull | Some (VInt _) => true | _ => false end.
+Definition int_keyed (keys : list skey) (rows : list row) : bool :=
+  forallb (fun r => forallb (fun k => int_key_col (sk_col k) r) keys) rows.
